@@ -888,6 +888,10 @@ def check(ck):
     d6_globals(ck, [r for r in ANCHORED if r.endswith('.py')] + ['enspara/util/load.py', 'enspara/util/parallel.py'])
     nc = d6_derived_caches(ck, [m.rel for m in repo.py_modules() if '/apps/' not in m.rel])
     ck.floor('C19.D6.derived-cache', nc, 8, 'classes of the package scanned for memoised derived attributes')
+    # added after the bug hunt (DESIGN.md 11.2b): iterative eigensolvers must be started from a fixed vector
+    from .msm_common import check_random_start
+    n7 = check_random_start(ck, 'C19.D7.solver-start', [m for m in repo.py_modules() if '/apps/' not in m.rel])
+    ck.floor('C19.D7.solver-start', n7, 1, 'iterative eigensolver calls in the package')
     ck.assume('numpy/scipy/mdtraj/PyTables honour their documented contracts (no uninitialised '
               'reads, no mutation of inputs beyond what the transfer tables list)')
     ck.assume('routines that are random by contract (synthetic_trajectory, unseeded k-medoids) '
